@@ -11,6 +11,7 @@ import (
 
 	"verifharness/gen"
 	"verifharness/mc"
+	"verifharness/sched"
 	"verifharness/props/reg"
 )
 
@@ -24,8 +25,12 @@ type In struct {
 	Via    string // "struct" | "parse" | "less"
 }
 
-func (in In) a() version.Version { return version.Version{Epoch: in.AE, Version: in.AV, Revision: in.AR} }
-func (in In) b() version.Version { return version.Version{Epoch: in.BE, Version: in.BV, Revision: in.BR} }
+func (in In) a() version.Version {
+	return version.Version{Epoch: in.AE, Version: in.AV, Revision: in.AR}
+}
+func (in In) b() version.Version {
+	return version.Version{Epoch: in.BE, Version: in.BV, Revision: in.BR}
+}
 
 func features(in In) []string {
 	var f []string
@@ -265,6 +270,9 @@ func Run(r *mc.Run) {
 	}
 	partPairs(r, "digit-tokens", toks, nil, map[string]interface{}{"tokens": "0 00 1 9 09 10 99999999999999999999 100000000000000000000 a ~ + .", "max_tokens": 3, "strings": len(toks)})
 
+	lr := gen.LongRunStrings()
+	partPairs(r, "long-runs", lr, nil, map[string]interface{}{"shape": "letter and digit runs of 7..17 characters continued by every class of character, cut short and continued differently, differing at every position class", "strings": len(lr)})
+
 	// many components: dotted numbers with up to 8 components (more around any new integer constant of the code)
 	maxComp := 8
 	for _, n := range gen.AuditInts(2, 11, 3) {
@@ -288,6 +296,9 @@ func Run(r *mc.Run) {
 		}
 	}
 	partPairs(r, "many-components", dotted, nil, map[string]interface{}{"shape": "d(.d)* with up to max_components components over {0,1}; d(sep d)* up to 6 over {1,2} for sep in - + ~ a", "max_components": maxComp, "strings": len(dotted)})
+
+	// comparisons made at the same time: every schedule of small thread programs (instrumented build)
+	sched.Explore(r, "concurrent-comparisons", ConcurrentPrograms())
 
 	// full versions
 	var full []In
@@ -340,6 +351,9 @@ func Run(r *mc.Run) {
 }
 
 func Replay(scenario string, raw json.RawMessage) []*mc.Violation {
+	if scenario == "concurrent-comparisons" {
+		return sched.Replay(scenario, ConcurrentPrograms(), raw)
+	}
 	var in In
 	if err := mc.UnmarshalInput(raw, &in); err != nil {
 		return nil
